@@ -47,6 +47,21 @@ theorem dot_tmulVec {m n : Nat} (G : Mat K m n) (lam : Vec K m) (u : Vec K n) :
   refine Finset.sum_congr rfl fun i _ => Finset.sum_congr rfl fun j _ => ?_
   ring
 
+/-- `loopFD` is the composition of its four stages (what the driver evaluates one at a time) -/
+theorem loopFD_stages {m n : Nat} (minv : Vec K n → Vec K n) (pinv : Vec K m → Vec K m) (G : Mat K m n) (f : Vec K n) (b : Vec K m) :
+    loopFD minv pinv G f b =
+      ⟨stageUdot0 minv f, stageRhs G (stageUdot0 minv f) b, stageLam pinv (stageRhs G (stageUdot0 minv f) b),
+       stageUdot minv G f (stageLam pinv (stageRhs G (stageUdot0 minv f) b))⟩ := rfl
+
+/-- the list-level operator on the enabled rows is `loopFD` on the assembled matrix (definitional) -/
+theorem loopFDList_eq {n : Nat} (minv : Vec K n → Vec K n) (pinv : (m : Nat) → Mat K m n → Vec K m → Vec K m)
+    (en : List Bool) (rows : List (List K)) (b : List K) (f : Vec K n) :
+    loopFDList minv pinv en rows b f =
+      (List.ofFn (loopFD minv (pinv _ (ofRows (assemble en rows))) (ofRows (assemble en rows)) f
+          (fun i => (assemble en b).getD i.val 0)).udot,
+       List.ofFn (loopFD minv (pinv _ (ofRows (assemble en rows))) (ofRows (assemble en rows)) f
+          (fun i => (assemble en b).getD i.val 0)).lam) := rfl
+
 /-- Newton's law with multipliers: `M udot + ~G λ = f` whenever `minv` is a right inverse of `M`
 (no assumption on `pinv` at all) -/
 theorem newton_with_multipliers {m n : Nat} (M : Mat K n n) (minv : Vec K n → Vec K n) (pinv : Vec K m → Vec K m)
